@@ -7,16 +7,17 @@
    Because a marker lies inside its call's interval, the order of the markers
    is a sequential history that respects real-time order.
 
-   [poss h a P] = "after history h, the abstract state can be a and the set of
-   pending calls can be P", where P records for every thread with a pending
-   call the call and, if its marker has already been placed, the result fixed
-   at the marker.
+   [poss a0 h a P] = "after history h (most recent event FIRST) from initial
+   abstract state a0, the abstract state can be a and the pending calls can be
+   P", where P records for every thread with a pending call the call and, once
+   its marker has been placed, the result fixed at the marker. Rule [poss_lin]
+   is the marker: it consumes no event, so markers can be placed anywhere
+   between the events.
 
-   Also proved here: (1) on a sequential history (every invocation immediately
-   followed by its response) linearizability means the responses are exactly
-   those of the specification run in order (the definition is not vacuous);
-   (2) the proof rule used for concurrent objects whose read-only operations
-   cannot be linearized at a step of their own ("interval reads"). *)
+   Sanity theorem (the definition is not vacuous and not too weak): on a
+   sequential history - every invocation immediately followed by its response
+   - linearizable means exactly "the responses are those of the specification
+   run in order". *)
 From Coq Require Import List Arith Lia.
 Import ListNotations.
 
@@ -26,20 +27,154 @@ Variable spec : St -> Call -> St * Res.      (* the sequential specification *)
 
 Inductive hevent := HInv (t : nat) (c : Call) | HRes (t : nat) (r : Res).
 
-(* a pending call of thread t: the call, and its result once linearized *)
+(* the pending call of a thread: the call, and its result once linearized *)
 Definition pend := nat -> option (Call * option Res).
-
+Definition no_pend : pend := fun _ => None.
 Definition upd (P : pend) (t : nat) (x : option (Call * option Res)) : pend :=
   fun t' => if Nat.eq_dec t' t then x else P t'.
 
-Inductive poss : list hevent -> St -> pend -> Prop :=
-| poss_nil a : poss [] a (fun _ => None)
-| poss_inv h a P t c : poss h a P -> P t = None -> poss (h ++ [HInv t c]) a (upd P t (Some (c, None)))
-| poss_lin h a P t c : poss h a P -> P t = Some (c, None) ->
-    poss h (fst (spec a c)) (upd P t (Some (c, Some (snd (spec a c)))))
-| poss_res h a P t c r : poss h a P -> P t = Some (c, Some r) -> poss (h ++ [HRes t r]) a (upd P t None).
+Inductive poss (a0 : St) : list hevent -> St -> pend -> Prop :=
+| poss_nil : poss a0 [] a0 no_pend
+| poss_inv h a P t c : poss a0 h a P -> P t = None -> poss a0 (HInv t c :: h) a (upd P t (Some (c, None)))
+| poss_lin h a P t c : poss a0 h a P -> P t = Some (c, None) ->
+    poss a0 h (fst (spec a c)) (upd P t (Some (c, Some (snd (spec a c)))))
+| poss_res h a P t c r : poss a0 h a P -> P t = Some (c, Some r) -> poss a0 (HRes t r :: h) a (upd P t None).
 
-Definition linearizable (a0 : St) (h : list hevent) : Prop :=
-  exists a P, poss_from a0 h a P
-with poss_from_dummy := True.
+(* h is given oldest event first *)
+Definition linearizable (a0 : St) (h : list hevent) : Prop := exists a P, poss a0 (rev h) a P.
+
+(* ---- sequential histories ---- *)
+Fixpoint spec_run (a : St) (cs : list Call) : St * list Res :=
+  match cs with
+  | [] => (a, [])
+  | c :: cs' => let '(a', r) := spec a c in let '(a'', rs) := spec_run a' cs' in (a'', r :: rs)
+  end.
+
+(* calls made one after the other by threads ts: [HInv t c; HRes t r; ...] *)
+Fixpoint seq_hist (l : list (nat * Call * Res)) : list hevent :=
+  match l with [] => [] | (t, c, r) :: l' => HInv t c :: HRes t r :: seq_hist l' end.
+
+Lemma upd_same P t x : upd P t x t = x.
+Proof. unfold upd. destruct (Nat.eq_dec t t); congruence. Qed.
+Lemma upd_other P t x t' : t' <> t -> upd P t x t' = P t'.
+Proof. unfold upd. destruct (Nat.eq_dec t' t); congruence. Qed.
+
+Lemma spec_run_app a cs c :
+  spec_run a (cs ++ [c]) =
+  (fst (spec (fst (spec_run a cs)) c), snd (spec_run a cs) ++ [snd (spec (fst (spec_run a cs)) c)]).
+Proof.
+  revert a. induction cs as [|c0 cs IH]; intros a; simpl.
+  - destruct (spec a c); reflexivity.
+  - destruct (spec a c0) as [a' r]. rewrite IH. destruct (spec_run a' cs) as [a'' rs]. reflexivity.
+Qed.
+
+Lemma seq_hist_app l x : seq_hist (l ++ [x]) = seq_hist l ++ seq_hist [x].
+Proof. induction l as [|[[t c] r] l IH]; simpl; [reflexivity|]. rewrite IH. reflexivity. Qed.
+
+(* soundness of the definition on sequential histories, both directions *)
+Definition calls (l : list (nat * Call * Res)) := map (fun x => snd (fst x)) l.
+Definition results (l : list (nat * Call * Res)) := map snd l.
+
+(* what a possibility of a sequential history looks like (stated pointwise on the pending map:
+   no functional extensionality is used): between calls nothing is pending; after the last
+   invocation exactly that call is pending, its marker placed or not *)
+Definition final_of (a0 : St) (l : list (nat * Call * Res)) : St := fst (spec_run a0 (calls l)).
+Definition res_ok (a0 : St) (l : list (nat * Call * Res)) : Prop := results l = snd (spec_run a0 (calls l)).
+
+Definition shape (a0 : St) (l : list (nat * Call * Res)) (cur : option (nat * Call)) (a : St) (P : pend) : Prop :=
+  res_ok a0 l /\
+  match cur with
+  | None => a = final_of a0 l /\ forall t, P t = None
+  | Some (t, c) =>
+      (forall t', t' <> t -> P t' = None) /\
+      ((a = final_of a0 l /\ P t = Some (c, None)) \/
+       (a = fst (spec (final_of a0 l) c) /\ P t = Some (c, Some (snd (spec (final_of a0 l) c)))))
+  end.
+
+Definition hist_of (l : list (nat * Call * Res)) (cur : option (nat * Call)) : list hevent :=
+  match cur with None => rev (seq_hist l) | Some (t, c) => HInv t c :: rev (seq_hist l) end.
+
+Lemma rev_seq_hist_snoc (l : list (nat * Call * Res)) t c r : rev (seq_hist (l ++ [(t, c, r)])) = HRes t r :: HInv t c :: rev (seq_hist l).
+Proof. rewrite seq_hist_app, rev_app_distr. reflexivity. Qed.
+
+Lemma rev_seq_hist_cases (l : list (nat * Call * Res)) :
+  l = [] \/ exists l' t c r, l = l' ++ [(t, c, r)].
+Proof.
+  destruct (rev l) as [|[[t c] r] l'] eqn:E.
+  - left. apply (f_equal (@rev _)) in E. rewrite rev_involutive in E. exact E.
+  - right. exists (rev l'), t, c, r. apply (f_equal (@rev _)) in E. rewrite rev_involutive in E. exact E.
+Qed.
+
+Lemma calls_snoc (l : list (nat * Call * Res)) t c r : calls (l ++ [(t, c, r)]) = calls l ++ [c].
+Proof. unfold calls. rewrite map_app. reflexivity. Qed.
+Lemma results_snoc (l : list (nat * Call * Res)) t c r : results (l ++ [(t, c, r)]) = results l ++ [r].
+Proof. unfold results. rewrite map_app. reflexivity. Qed.
+
+Lemma poss_shape a0 h a P : poss a0 h a P -> forall l cur, h = hist_of l cur -> shape a0 l cur a P.
+Proof.
+  induction 1 as [|h a P t c Hp IH HP|h a P t c Hp IH HP|h a P t c r Hp IH HP]; intros l cur E.
+  - (* nil *)
+    destruct cur as [[t c]|]; [discriminate|]. simpl in E.
+    destruct (rev_seq_hist_cases l) as [->|(l' & t & c & r & ->)]; [|rewrite rev_seq_hist_snoc in E; discriminate].
+    split; [reflexivity|]. split; reflexivity.
+  - (* inv *)
+    destruct cur as [[t0 c0]|]; simpl in E.
+    + injection E as -> -> ->. specialize (IH l None eq_refl). destruct IH as (R & -> & Hn).
+      split; [exact R|]. split.
+      * intros t' Hne. rewrite upd_other by exact Hne. apply Hn.
+      * left. split; [reflexivity|]. apply upd_same.
+    + destruct (rev_seq_hist_cases l) as [->|(l' & t1 & c1 & r1 & ->)]; [discriminate|].
+      rewrite rev_seq_hist_snoc in E. discriminate.
+  - (* lin *)
+    specialize (IH l cur E). destruct IH as (R & IH). split; [exact R|].
+    destruct cur as [[t0 c0]|].
+    + destruct IH as (Hn & [(-> & Ht)|(-> & Ht)]).
+      * destruct (Nat.eq_dec t t0) as [->|Hne].
+        -- rewrite Ht in HP. injection HP as ->. split.
+           ++ intros t' Hne. rewrite upd_other by exact Hne. apply Hn. exact Hne.
+           ++ right. split; [reflexivity|]. apply upd_same.
+        -- rewrite Hn in HP by exact Hne. discriminate.
+      * destruct (Nat.eq_dec t t0) as [->|Hne].
+        -- rewrite Ht in HP. discriminate.
+        -- rewrite Hn in HP by exact Hne. discriminate.
+    + destruct IH as (_ & Hn). rewrite Hn in HP. discriminate.
+  - (* res *)
+    destruct cur as [[t0 c0]|]; simpl in E; [discriminate|].
+    destruct (rev_seq_hist_cases l) as [->|(l' & t1 & c1 & r1 & ->)]; [discriminate|].
+    rewrite rev_seq_hist_snoc in E. injection E as -> -> E.
+    specialize (IH l' (Some (t1, c1)) E). destruct IH as (R & Hn & [(-> & Ht)|(-> & Ht)]).
+    + rewrite Ht in HP. discriminate.
+    + rewrite Ht in HP. injection HP as Hc Hr. subst c.
+      unfold shape, res_ok, final_of in *. rewrite calls_snoc, results_snoc, spec_run_app. simpl.
+      split; [rewrite R, <- Hr; reflexivity|]. split; [reflexivity|].
+      intros t'. destruct (Nat.eq_dec t' t1) as [->|Hne]; [apply upd_same|].
+      rewrite upd_other by exact Hne. apply Hn. exact Hne.
+Qed.
+
+Lemma shape_poss a0 l : res_ok a0 l -> exists P, poss a0 (rev (seq_hist l)) (final_of a0 l) P /\ forall t, P t = None.
+Proof.
+  induction l as [|[[t c] r] l IH] using rev_ind; intros R.
+  - exists no_pend. split; [constructor|reflexivity].
+  - unfold res_ok in R. rewrite calls_snoc, results_snoc, spec_run_app in R. simpl in R.
+    apply app_inj_tail in R as [R Er].
+    destruct (IH R) as (P & Hp & Hn).
+    rewrite rev_seq_hist_snoc. unfold final_of. rewrite calls_snoc, spec_run_app. simpl. fold (final_of a0 l).
+    eexists. split.
+    + eapply poss_res with (c := c).
+      * eapply poss_lin with (t := t) (c := c).
+        -- eapply poss_inv with (t := t) (c := c); [exact Hp|apply Hn].
+        -- apply upd_same.
+      * rewrite upd_same. rewrite Er. reflexivity.
+    + intros t'. destruct (Nat.eq_dec t' t) as [->|Hne]; [apply upd_same|].
+      rewrite !upd_other by exact Hne. apply Hn.
+Qed.
+
+Theorem seq_linearizable_iff a0 l :
+  linearizable a0 (seq_hist l) <-> results l = snd (spec_run a0 (calls l)).
+Proof.
+  split.
+  - intros (a & P & Hp). apply (poss_shape _ _ _ _ Hp l None eq_refl).
+  - intros R. destruct (shape_poss a0 l R) as (P & Hp & _). exists (final_of a0 l), P. exact Hp.
+Qed.
+
 End Lin.
